@@ -174,7 +174,7 @@ fn run<B: SimField, H: ElementHasher<BaseField = B> + Send + Sync + 'static>(
         return;
     }
 
-    let kind = ch.weighted("fault.kind", &[5, if case.shape.aux.is_some() { 4 } else { 0 }, 3, 1, 3]);
+    let kind = ch.weighted("fault.kind", &[5, if case.shape.aux.is_some() { 4 } else { 0 }, 3, 1, 3, 3]);
     let ctxt = |case: &Case<B>| format!("{:?} {:?} shape {}", cfg, case.options, case.shape.describe());
     match kind {
         0 => {
@@ -417,6 +417,74 @@ fn run<B: SimField, H: ElementHasher<BaseField = B> + Send + Sync + 'static>(
                 }
             }
         },
+        5 => {
+            // F6: pole cancellation between a transition constraint and a boundary constraint.
+            // A Byzantine prover violates single assertion j at step 0 by d and transition
+            // constraint k at step 0 by a = -d * n / E(1), E = product over the exemption points
+            // (1 - g^(n-i)): the two rational functions then have opposite residues at x = 1, so
+            // their sum is a polynomial exactly when the two constraints share their random
+            // coefficient. The ratio needs no verifier randomness. Everything downstream of the
+            // two cells is recomputed by forward execution so that nothing else is violated; the
+            // statement keeps only its step-0 single assertions.
+            let mut shape = case.shape.clone();
+            shape.assertions.retain(|a| a.kind == AssertKind::Single && a.first == 0);
+            if shape.assertions.is_empty() {
+                shape.assertions.push(AssertSpec { kind: AssertKind::Single, col: 0, first: 0, stride: 0, count: 1 });
+            }
+            let values = read_assertion_values(&shape, &case.rows);
+            let c2 = Case { blowup: case.blowup, shape: shape.clone(), rows: case.rows.clone(), inputs: SimInputs { shape: shape.clone(), values }, options: case.options.clone() };
+            match prove_and_verify::<B, H>(&c2, &c2.rows, None) {
+                Some((a, b)) if a.accepted() && b.accepted() => {},
+                _ => {
+                    ctx.skipped = Some("baseline_failed");
+                    return;
+                },
+            }
+            let j = ch.index("F6.assertion", shape.assertions.len());
+            let k = ch.index("F6.rule", shape.rules.len());
+            let d = felt::<B>(1 + ch.pick("F6.delta", 1 << 30));
+            let g = B::get_root_of_unity(shape.log_len);
+            let mut e1 = B::ONE;
+            for i in 1..=shape.exemptions {
+                e1 *= B::ONE - g.exp(((n - i) as u64).into());
+            }
+            let a = -(d * felt::<B>(n as u64)) / e1;
+            let mut rows = c2.rows.clone();
+            rows[0][shape.assertions[j].col] += d;
+            for i in 0..n - 1 {
+                let periodic: Vec<B> = shape.periodic.iter().map(|p| felt::<B>(p[i % p.len()])).collect();
+                let cur = rows[i].clone();
+                for (r, rule) in shape.rules.iter().enumerate() {
+                    let mut v = rule.apply(&cur, &periodic);
+                    if i == 0 && r == k {
+                        v += a;
+                    }
+                    rows[i + 1][rule.col()] = v;
+                }
+            }
+            let bad = main_violations(&c2.inputs, &rows);
+            ctx.fault("F6_transition_boundary_pole_cancellation");
+            let res = prove_and_verify::<B, H>(&c2, &rows, None);
+            let verdict = match &res {
+                None => "prover-refused".to_string(),
+                Some((x, y)) => format!("{} / {}", x.short(), y.short()),
+            };
+            ctx.event_with("F6", simcore::rng::fnv1a(format!("{j}{k}{verdict}").as_bytes()), || {
+                format!("assertion {j} (col {}) violated by d and rule {k} violated at step 0 by -d*n/E(1); reference predicate: {:?}; verdict {verdict}", shape.assertions[j].col, &bad[..bad.len().min(3)])
+            });
+            if bad.is_empty() {
+                ctx.skipped = Some("crafted_trace_happens_to_be_valid");
+                return;
+            }
+            if let Some((x, y)) = &res {
+                if x.accepted() || y.accepted() {
+                    ctx.violation(
+                        "C02/F6/pole-cancellation-accepted",
+                        format!("a trace violating assertion {j} and transition constraint {k} at step 0 with residues that cancel was accepted ({verdict}): the two constraints share their random coefficient; {}", ctxt(&c2)),
+                    );
+                }
+            }
+        },
         _ => {
             // F4: acceptance policy does not contain the proof's parameters
             let (out, _) = prove::<B, H, DefaultRandomCoin<H>>(&case, &case.rows, None);
@@ -477,7 +545,7 @@ pub fn spec() -> CheckSpec {
         id: "C02",
         level: "exploration",
         build: "serial",
-        rule: "one run = one generated case (as C01) whose fault-free baseline is first confirmed, then one injected fault: F1 a cell (column, step) of the prover's stored main trace changed before commitment (aimed at step 0, the last enforced transition, both sides of the exemption boundary, n-1, every asserted step and its neighbours, or uniform); F2 the same for an auxiliary-trace cell inside the prover node (incl. the Lagrange column); F5 two cells corrupted by cancelling deltas so that two constraints over the same divisor are violated by opposite amounts (main/main, main/aux, same-step assertions); F3 one public input of the verifier perturbed (asserted value, exemption count, rule parameter, assertion step / column, periodic value); F4 an acceptance policy that excludes the proof's parameters. The enum-cells arm corrupts EVERY cell of small traces (n<=32, w<=6) in turn. Non-trivial = a fault fired; distinct = distinct event-log digests.".into(),
+        rule: "one run = one generated case (as C01) whose fault-free baseline is first confirmed, then one injected fault: F1 a cell (column, step) of the prover's stored main trace changed before commitment (aimed at step 0, the last enforced transition, both sides of the exemption boundary, n-1, every asserted step and its neighbours, or uniform); F2 the same for an auxiliary-trace cell inside the prover node (incl. the Lagrange column); F5 two cells corrupted by cancelling deltas so that two constraints over the same divisor are violated by opposite amounts (main/main, main/aux, same-step assertions); F6 a transition and a boundary constraint violated at step 0 with residues that cancel when they share a coefficient; F3 one public input of the verifier perturbed (asserted value, exemption count, rule parameter, assertion step / column, periodic value); F4 an acceptance policy that excludes the proof's parameters. The enum-cells arm corrupts EVERY cell of small traces (n<=32, w<=6) in turn. Non-trivial = a fault fired; distinct = distinct event-log digests.".into(),
         interleaving_measure: "distinct (case, fault kind, fault position, verdict) histories".into(),
         real: vec!["winter-prover (release profile: its debug-only trace validation is off, as shipped)", "winter-verifier, winter-air, winter-fri, winter-crypto, winter-math"],
         stub: vec!["the fault points are the harness' Prover impl (trace handed to prove(); build_aux_trace)"],
